@@ -62,14 +62,7 @@ impl<'a> SessionData<'a> {
             ReceivedPacket::PubRec(rec) => {
                 let queue_release = match self.outbound.ack_packet(rec.packet_id) {
                     true => {
-                        runtime.send_quota = runtime
-                            .send_quota
-                            .saturating_add(1)
-                            .min(runtime.max_send_quota);
-                        debug!(
-                            "Processed PUBREC packet_id={=u16} send_quota={=u16}",
-                            rec.packet_id, runtime.send_quota
-                        );
+                        debug!("Processed PUBREC packet_id={=u16}", rec.packet_id);
                         true
                     }
                     false if self.outbound.has_pending_release(rec.packet_id) => {
@@ -84,7 +77,16 @@ impl<'a> SessionData<'a> {
                         return Ok(false);
                     }
                 };
-                rec.reason.code().as_result()?;
+                if let Err(err) = rec.reason.code().as_result() {
+                    if queue_release {
+                        // A failing PUBREC ends the exchange: its receive-maximum slot is free again.
+                        runtime.send_quota = runtime
+                            .send_quota
+                            .saturating_add(1)
+                            .min(runtime.max_send_quota);
+                    }
+                    return Err(err.into());
+                }
                 if queue_release {
                     check_pubrel_size(
                         runtime.maximum_packet_size,
@@ -104,7 +106,15 @@ impl<'a> SessionData<'a> {
                     );
                     return Ok(false);
                 }
-                debug!("Processed PUBCOMP packet_id={=u16}", comp.packet_id);
+                // The exchange counts against the broker's Receive Maximum until PUBCOMP.
+                runtime.send_quota = runtime
+                    .send_quota
+                    .saturating_add(1)
+                    .min(runtime.max_send_quota);
+                debug!(
+                    "Processed PUBCOMP packet_id={=u16} send_quota={=u16}",
+                    comp.packet_id, runtime.send_quota
+                );
                 comp.reason.code().as_result()?;
             }
             ReceivedPacket::PubRel(rel) => {
